@@ -73,6 +73,8 @@ class ArgumentsGenerator:
                 plugin_manager=self.plugin_manager,
                 node=variable_definition,
             )
+            if name in ("self", KWARGS_NAMES):
+                name += "_"
             annotation, used_custom_scalar = self._parse_type_node(
                 variable_definition.type
             )
